@@ -577,7 +577,7 @@ static int do_sync(int kind)
 	env_reset();
 	ENV.h.recv_empty = recv_empty;
 	ENV.horizon_calls = 0;
-	memset(SOCK, 0, sizeof(*SOCK));
+	memset(SOCK, 0xA5, sizeof(*SOCK)); /* rtr_init has to initialise every field itself */
 	rtr_init(SOCK, &ENV_TR, &PFX, &SPKI, 3600, 7200, 600, RTR_INTERVAL_MODE_IGNORE_ANY, NULL, NULL, NULL);
 	SOCK->session_id = SESSION;
 	SOCK->serial_number = 5;
